@@ -202,11 +202,11 @@ def sessions_for(tier, rng):
     # 1. every length 0..64 x layouts x several agent configurations
     for n in range(0, 65):
         for layout in LAYOUTS:
-            for rep in range(2 if quick else 8):
+            for rep in range(6 if quick else 16):
                 pkt = layout_bytes(rng, n, layout)
                 add("len0-64:" + layout, [rand_agent(rng)] + hostile_ops(rng, pkt))
     # 2. grammar-aware packets: valid, mutants, prefixes
-    for _ in range(1500 if quick else 20000):
+    for _ in range(8000 if quick else 40000):
         padded = rng.random() < 0.7
         m = S.valid_message(rng, padded)
         r = rng.random()
@@ -216,7 +216,7 @@ def sessions_for(tier, rng):
             m = m[:rng.randrange(len(m) + 1)]
         add("grammar", [rand_agent(rng)] + hostile_ops(rng, m))
     # 3. long byte strings up to 65535
-    for _ in range(12 if quick else 150):
+    for _ in range(30 if quick else 200):
         n = rng.choice([2048, 4096, 65535, 65532, 65534, 40000, rng.randrange(2048, 65536)])
         k = rng.random()
         if k < 0.4:
@@ -230,14 +230,14 @@ def sessions_for(tier, rng):
     # 4. reply construction for all output sizes 0..1300
     allcaps = list(range(0, 1301))
     if quick:
-        for i in range(0, 1301, 26):
-            add("reply-caps", s_replies(rng, allcaps[i:i + 26][::5] + [rng.randrange(0, 1301) for _ in range(3)]))
+        for i in range(0, 1301, 13):
+            add("reply-caps", s_replies(rng, allcaps[i:i + 13][::2] + [rng.randrange(0, 1301) for _ in range(3)]))
     else:
         for rep in range(6):
             for i in range(0, 1301, 50):
                 add("reply-caps", s_replies(rng, allcaps[i:i + 50]))
     # 5. usage-level builders
-    for _ in range(300 if quick else 4000):
+    for _ in range(1200 if quick else 6000):
         add("usage-builders", s_builders(rng))
     return sessions, kinds
 
